@@ -166,6 +166,13 @@ def pool(name, hash_name):
     elif name == "E":  # 6 small versions of one blob (reference-built delta forests, reuse family)
         base = _stream(600, b"E")
         objs = [(3, base[:100 * k] + b"<edit %d>" % k + base[100 * k:]) for k in range(6)]
+    elif name == "T":  # pool E as a linear history: blob k, tree k = {f: blob k}, commit k (parent k-1)
+        blobs = [d for _, d in pool("E", hash_name)]
+        trees = [_tree([(0o100644, b"f", 3, b)], hash_name) for b in blobs]
+        commits = []
+        for k, t in enumerate(trees):
+            commits.append(_commit(t, commits[-1:], b"version %d\n" % k, hash_name))
+        objs = [(3, b) for b in blobs] + [(2, t) for t in trees] + [(1, c) for c in commits]
     else:
         raise HarnessError("unknown pool " + name)
     names = [R.object_name(t, d, hash_name) for t, d in objs]
@@ -175,7 +182,7 @@ def pool(name, hash_name):
     return objs
 
 
-ALL_POOLS = ("A", "B", "C", "V", "E")
+ALL_POOLS = ("A", "B", "C", "V", "E", "T")
 
 
 def _names(objs, hash_name):
@@ -379,8 +386,13 @@ def oracle_read(acc, fam, basename, res, ientries, version, hash_name, rpd, orde
     def cls(name):
         return _entry_class(want[name], hash_name)
 
-    # -- random access in every order (each on a fresh Pack: the first access fills the offset cache)
-    orders = orders if orders is not None else _perms(names)
+    # -- random access orders, each on a fresh Pack (resolving a delta fills Pack.data._offset_cache,
+    #    which later accesses are served from): every permutation when the pack holds deltas and
+    #    orders == "all"; sorted + reversed otherwise (no delta => the cache is never written)
+    if orders == "all" and any(r.kind != "full" for r in res):
+        orders = _perms(names)
+    elif orders is None or orders in ("all", "few"):
+        orders = [tuple(names), tuple(reversed(names))] if len(names) > 1 else [tuple(names)]
     if singles:
         orders = list(orders) + [(n,) for n in names]
     for order in orders:
@@ -737,11 +749,13 @@ def case_wseq(acc, pool_name, idxs, hash_name, mode, opt, shared=None):
         if variants is None:
             variants = _write_idx_variants(acc, fam, d, packpath, entries, checksum, hash_name, rpd, _API[mode])
         oracle_git_pack(acc, fam, packpath, pinfo, res, hash_name, rpd, shared)
-        for site, version, base, idxdata in variants:
+        first = True
+        for site, version, base, idxdata in sorted(variants, key=lambda v: (v[1] != 2, v[1])):
             iinfo = oracle_idx(acc, fam, pinfo, res, idxdata, version, hash_name, rpd, site)
             if iinfo is None:
                 continue
-            oracle_read(acc, fam, base, res, _ref_entries(pinfo, res), version, hash_name, rpd)
+            oracle_read(acc, fam, base, res, _ref_entries(pinfo, res), version, hash_name, rpd, orders="all" if first else "few")
+            first = False
             oracle_git_pair(acc, fam, base, pinfo, res, iinfo, hash_name, rpd, shared)
         acc.outcome("W:%s:%s:round-trip-evaluated" % (mode, hash_name))
     finally:
@@ -752,6 +766,9 @@ _API = {"wp": "write_pack", "wpo": "write_pack_objects", "wpd": "write_pack_data
 
 
 def wseq_options(quick):
+    """thorough: full products.  quick: window x level and level x index version one factor at a
+    time around (None, -1) — they are independent in the code (deflate level in pack_object_chunks,
+    window in deltas_from_sorted_objects, index version in write_pack_index)."""
     out = []
     for deltify, window in [(False, None)] + [(True, w) for w in WINDOWS]:
         out.append(("wp", (deltify, window)))
@@ -760,10 +777,12 @@ def wseq_options(quick):
             out.append(("wpo", (deltify, level)))
     for window in WINDOWS:
         for level in LEVELS:
-            out.append(("wpd", (window, level)))
+            if not quick or window is None or level == -1:
+                out.append(("wpd", (window, level)))
     for level in LEVELS:
         for iv in (None, 1, 2, 3):
-            out.append(("store", (level, iv)))
+            if not quick or iv is None or level == -1:
+                out.append(("store", (level, iv)))
     return out
 
 
@@ -772,21 +791,782 @@ def ordered_selections(n, k):
         yield from itertools.permutations(range(n), r)
 
 
+# --------------------------------------------------------------------------- W.ofs / W.slice
+
+
+def _finish_written(acc, fam, d, packpath, exp, entries, checksum, hash_name, rpd, shared, api, ordered=True, versions=(2,)):
+    """Shared tail of the small W families: all oracles on a pack dulwich just wrote."""
+    P = _P()
+    with open(packpath, "rb") as f:
+        data = f.read()
+    pr = oracle_pack(acc, fam.split("/")[0], data, exp, hash_name, rpd, ordered=ordered)
+    if pr is None:
+        return None
+    pinfo, res = pr
+    if checksum != pinfo.trailer:
+        acc.violation("write:%s:returned-checksum-differs-from-trailer%s" % (api, _hcls(hash_name)), fam, rpd)
+    mine = {r.name: (e.offset, e.crc32) for r, e in zip(res, pinfo.entries)}
+    if dict(entries) != mine:
+        what = "names-wrong" if set(entries) != set(mine) else ("offset-wrong" if {k: v[0] for k, v in entries.items()} != {k: v[0] for k, v in mine.items()} else "crc32-wrong")
+        acc.violation("write:%s:returned-entries:%s%s" % (api, what, _hcls(hash_name)), fam, rpd)
+        return pinfo, res
+    oracle_git_pack(acc, fam, packpath, pinfo, res, hash_name, rpd, shared)
+    for version in versions:
+        base = os.path.join(d, "v%d" % version)
+        os.link(packpath, base + ".pack")
+        with open(base + ".idx", "wb") as f:
+            P.write_pack_index(f, sorted((k, v[0], v[1]) for k, v in entries.items()), checksum, version=version)
+        with open(base + ".idx", "rb") as f:
+            idxdata = f.read()
+        ii = oracle_idx(acc, fam, pinfo, res, idxdata, version, hash_name, rpd, "write_pack_index")
+        if ii is not None:
+            oracle_read(acc, fam, base, res, _ref_entries(pinfo, res), version, hash_name, rpd, orders="all")
+            oracle_git_pair(acc, fam, base, pinfo, res, ii, hash_name, rpd, shared)
+    return pinfo, res
+
+
+def case_wofs(acc, filler_size, shared=None):
+    """[base, filler, delta-against-base] written at deflate level 0: the distance the OFS delta has
+    to encode is a known function of filler_size; the sweep crosses 127/128, 16511/16512 and
+    2113663/2113664 (1/2, 2/3, 3/4 bytes of offset encoding)."""
+    P = _P()
+    hash_name = "sha1"
+    fmt = _fmt(hash_name)
+    rpd = rp(case_wofs, filler_size)
+    base = (3, _stream(100, b"ofs-base"))
+    target = (3, base[1][:90] + b"!")  # shorter: deltify makes it a delta against `base`
+    filler = (3, _noise(filler_size, b"filler%d" % filler_size))
+    fam = "W.ofs/filler=%d" % filler_size
+    acc.count("W.ofs_cases")
+    d = fresh_dir("w")
+    try:
+        bo, to, fo = (_shafile(t, x, hash_name) for t, x in (base, target, filler))
+        recs = list(P.deltify_pack_objects(iter([(bo, None), (to, None)])))
+        if [u.sha() for u in recs] != [bo.sha().digest(), to.sha().digest()] or recs[1].delta_base != bo.sha().digest():
+            raise HarnessError("W.ofs: deltify did not make the target a delta against the base")
+        recs.insert(1, P.full_unpacked_object(fo))
+        packpath = os.path.join(d, "p.pack")
+        try:
+            with open(packpath, "wb") as f:
+                entries, checksum = P.write_pack_data(f.write, iter(recs), num_records=3, compression_level=0, object_format=fmt)
+        except Exception as e:
+            acc.violation("write:write_pack_data:raises-%s:%s" % (_exc_name(e), _exc_site(e)), "%s: %s" % (fam, str(e)[:160]), rpd)
+            return
+        pr = _finish_written(acc, fam, d, packpath, [base, filler, target], entries, checksum, hash_name, rpd, shared, "write_pack_data")
+        if pr:
+            e = pr[0].entries[2]
+            if e.type != R.OFS_DELTA:
+                raise HarnessError("W.ofs: third entry is not an OFS delta")
+            acc.outcome("W.ofs:distance-bytes=%d" % e.ofs_len)
+            acc.note("W.ofs:distance(filler=%d)" % filler_size, e.offset - e.base_offset)
+    finally:
+        rmtree(d)
+
+
+WOFS_FILLERS = list(range(0, 24)) + list(range(16376, 16396)) + list(range(2113368, 2113384))
+
+
+def case_wslice(acc, size, level, layout, shared=None):
+    """One blob whose deflate stream ends exactly at / next to a multiple of the 64 KiB slice that
+    read_zlib_chunks_at and PackStreamReader feed to zlib; layout: alone | then-small | small-then."""
+    from io import BytesIO
+
+    from dulwich.object_store import DiskObjectStore
+
+    P = _P()
+    hash_name = "sha1"
+    fmt = _fmt(hash_name)
+    rpd = rp(case_wslice, size, level, layout)
+    big = (3, _noise(size, b"slice"))
+    small = (3, b"small\n")
+    exp = {"alone": [big], "then-small": [big, small], "small-then": [small, big]}[layout]
+    fam = "W.slice/size=%d/level=%d/%s" % (size, level, layout)
+    acc.count("W.slice_cases")
+    d = fresh_dir("w")
+    try:
+        objs = [_shafile(t, x, hash_name) for t, x in exp]
+        packpath = os.path.join(d, "p.pack")
+        with open(packpath, "wb") as f:
+            entries, checksum = P.write_pack_objects(f.write, objs, fmt, deltify=False, compression_level=level)
+        pr = _finish_written(acc, fam, d, packpath, exp, entries, checksum, hash_name, rpd, shared, "write_pack_objects")
+        if not pr:
+            return
+        for e in pr[0].entries:
+            if e.size == size:
+                acc.outcome("W.slice:deflate-length-minus-k*64KiB=%+d" % (((e.zlen + 32768) % 65536) - 32768))
+        # the streaming reader (PackStreamReader / PackStreamCopier) on the same bytes
+        with open(packpath, "rb") as f:
+            data = f.read()
+        sd = os.path.join(d, "objects")
+        os.makedirs(os.path.join(sd, "pack"))
+        store = DiskObjectStore(sd, object_format=fmt)
+        try:
+            for how in ("read", "recv"):
+                src = BytesIO(data)
+                try:
+                    r = P.PackStreamReader(fmt.hash_func, src.read, (lambda n: src.read(min(n, 4096))) if how == "recv" else None)
+                    got = [(u.obj_type_num, b"".join(u.obj_chunks)) for u in r.read_objects()]
+                    if got != exp:
+                        acc.violation("read:PackStreamReader.read_objects:objects-differ", "%s via %s" % (fam, how), rpd)
+                except Exception as e:
+                    acc.violation("read:PackStreamReader.read_objects:raises-%s" % _exc_name(e), "%s via %s: %s: %s" % (fam, how, _exc_site(e), str(e)[:120]), rpd)
+            try:
+                src = BytesIO(data)
+                pk = store.add_thin_pack(src.read, None)
+                for (t, x), n in zip(exp, _names(exp, hash_name)):
+                    if store.get_raw(n.hex().encode()) != (t, x):
+                        acc.violation("read:DiskObjectStore.get_raw:object-differs-after-add_thin_pack", fam, rpd)
+            except Exception as e:
+                acc.violation("read:DiskObjectStore.add_thin_pack:raises-%s" % _exc_name(e), "%s: %s: %s" % (fam, _exc_site(e), str(e)[:120]), rpd)
+        finally:
+            store.close()
+    finally:
+        rmtree(d)
+
+
+# level 0 stores the bytes: deflate length = size + a few bytes per stored block; the sweeps are wide
+# enough to cross k*65536 (asserted in run() from the measured lengths)
+WSLICE_SIZES = list(range(65514, 65528)) + list(range(131044, 131064))
+
+
+# --------------------------------------------------------------------------- W.reuse
+
+
+def _source_store(d, kind, hash_name, nobj):
+    """A DiskObjectStore whose only pack holds the first nobj objects of pool E packed with deltas by
+    `kind`: git-ref (REF deltas), git-ofs (OFS deltas), dulwich (write_pack deltify=True)."""
+    from dulwich.object_store import DiskObjectStore
+
+    P = _P()
+    fmt = _fmt(hash_name)
+    objs = pool("E", hash_name)[:nobj]
+    sd = os.path.join(d, "src-objects")
+    os.makedirs(os.path.join(sd, "pack"))
+    stem = os.path.join(sd, "pack", "pack-" + "0" * 39 + "1")
+    if kind == "dulwich":
+        with open(stem + ".pack", "wb") as f:
+            P.write_pack_objects(f.write, [(_shafile(t, x, hash_name), None) for t, x in objs], fmt, deltify=True)
+        pd = P.PackData(stem + ".pack", object_format=fmt)
+        try:
+            pd.create_index(stem + ".idx", version=2)
+        finally:
+            pd.close()
+    else:
+        data = _git_pack(hash_name, _names(objs, hash_name), ["--depth=50", "--window=10"] + (["--delta-base-offset"] if kind == "git-ofs" else []))
+        with open(stem + ".pack", "wb") as f:
+            f.write(data)
+        _git_index(hash_name, os.path.dirname(stem), stem + ".pack", os.path.basename(stem), None)
+    with open(stem + ".pack", "rb") as f:
+        pinfo = R.parse_pack(f.read(), hash_name)
+    res = R.resolve_pack(pinfo)
+    if not any(r.kind != "full" for r in res):
+        raise HarnessError("W.reuse: source pack (%s) holds no deltas" % kind)
+    return DiskObjectStore(sd, object_format=fmt), res
+
+
+def case_wreuse(acc, kind, idxs, hash_name, reuse, deltify, window, thin, shared=None):
+    """write_pack_from_container out of a store already packed with deltas, for the ordered selection
+    idxs of pool E.  thin: the objects not selected are declared as other_haves (deltas against them
+    may be reused -> thin pack, which dulwich and C git must be able to complete)."""
+    from io import BytesIO
+
+    from dulwich.object_store import DiskObjectStore
+
+    P = _P()
+    fmt = _fmt(hash_name)
+    rpd = rp(case_wreuse, kind, list(idxs), hash_name, reuse, deltify, window, thin)
+    NOBJ = 6
+    pl = pool("E", hash_name)[:NOBJ]
+    exp = [pl[i] for i in idxs]
+    names = _names(pl, hash_name)
+    others = [i for i in range(NOBJ) if i not in idxs]
+    fam = "W.reuse/%s%r/reuse=%d/deltify=%d/window=%r/thin=%d" % (kind, tuple(idxs), reuse, deltify, window, thin)
+    hc = _hcls(hash_name)
+    acc.count("W.reuse_cases")
+    d = fresh_dir("w")
+    try:
+        store, _src = _source_store(d, kind, hash_name, NOBJ)
+        packpath = os.path.join(d, "p.pack")
+        try:
+            try:
+                with open(packpath, "wb") as f:
+                    entries, checksum = P.write_pack_from_container(
+                        f.write, store, [(names[i].hex().encode(), None) for i in idxs], fmt, delta_window_size=window,
+                        deltify=deltify, reuse_deltas=reuse,
+                        other_haves={names[i].hex().encode() for i in others} if thin else None)
+            except Exception as e:
+                acc.outcome("W.reuse:%s:writer-raises-%s" % (hash_name, _exc_name(e)))
+                acc.violation("write:write_pack_from_container:raises-%s:%s%s" % (_exc_name(e), _exc_site(e), hc),
+                              "%s: %s in %s: %s" % (fam, _exc_name(e), _exc_site(e), str(e)[:160]), rpd)
+                return
+        finally:
+            store.close()
+        with open(packpath, "rb") as f:
+            data = f.read()
+        ext = {names[i]: pl[i] for i in others} if thin else {}
+        try:
+            pinfo = R.parse_pack(data, hash_name)
+            nthin = sum(1 for e in pinfo.entries if e.type == R.REF_DELTA and e.base_name in ext)
+        except R.FormatError:
+            nthin = 0
+        if not nthin:
+            pr = _finish_written(acc, fam, d, packpath, exp, entries, checksum, hash_name, rpd, shared, "write_pack_from_container",
+                                 ordered=False)
+            if pr:
+                acc.outcome("W.reuse:%s:%s:reuse=%d:deltify=%d:kinds=%s" % (hash_name, kind, reuse, deltify, "+".join(sorted({r.kind for r in pr[1]})) or "empty"))
+            return
+        # ---- thin result
+        acc.outcome("W.reuse:%s:%s:thin-pack-external-bases=%d" % (hash_name, kind, min(nthin, 3)))
+        pr = oracle_pack(acc, "W.reuse-thin", data, exp, hash_name, rpd, external=ext, ordered=False)
+        if pr is None:
+            return
+        pinfo, res = pr
+        # C git completes it
+        if _claim(shared, "T-" + hash_name + "-" + pinfo.trailer.hex()):
+            st = _gitstate(hash_name)
+            out = os.path.join(d, "fixed.pack")
+            p = git(["index-pack", "--fix-thin", "--strict", "--stdin", out], cwd=st["full"], input=data, check=False)
+            acc.count("git_index_pack")
+            if p.returncode != 0:
+                acc.violation("git:index-pack--fix-thin:rejects-dulwich-thin-pack%s" % hc, "%s: %s" % (fam, p.stderr.decode("latin1")[-200:]), rpd)
+            else:
+                acc.outcome("git:index-pack--fix-thin:accepted")
+        # dulwich completes it
+        sd = os.path.join(d, "objects")
+        os.makedirs(os.path.join(sd, "pack"))
+        st2 = DiskObjectStore(sd, object_format=fmt)
+        try:
+            for i in others:
+                st2.add_object(_shafile(pl[i][0], pl[i][1], hash_name))
+            try:
+                src = BytesIO(data)
+                st2.add_thin_pack(src.read, None)
+                for i in idxs:
+                    if st2.get_raw(names[i].hex().encode()) != pl[i]:
+                        acc.violation("read:DiskObjectStore.get_raw:object-differs-after-add_thin_pack%s" % hc, fam, rpd)
+            except Exception as e:
+                acc.violation("read:DiskObjectStore.add_thin_pack:raises-%s%s" % (_exc_name(e), hc), "%s: %s: %s" % (fam, _exc_site(e), str(e)[:120]), rpd)
+        finally:
+            st2.close()
+    finally:
+        rmtree(d)
+
+
+# --------------------------------------------------------------------------- I: index only
+
+I_OFFSETS = (12, 0x7FFFFFFF, 0x80000000, 0xFFFFFFFF, 0x100000000, 1 << 40)
+I_FIRST = (0x00, 0x00, 0x01, 0x7F, 0xFE, 0xFF, 0xFF)  # two names in the first and in the last bucket
+
+
+def i_names(hash_name):
+    hl = R.hash_len(hash_name)
+    out = []
+    for k, fb in enumerate(I_FIRST):
+        out.append(bytes([fb]) + hashlib.sha256(b"name%d" % k).digest()[: hl - 1])
+    return out
+
+
+def _crc_for(name):
+    return int.from_bytes(hashlib.sha1(name).digest()[:4], "big")
+
+
+def _idx_read_oracle(acc, fam, path, entries, pack_checksum, version, hash_name, rpd, writer):
+    """dulwich's index reader on a file whose contents the reference model knows."""
+    P = _P()
+    fmt = _fmt(hash_name)
+    hc = _hcls(hash_name)
+    vio = lambda key, msg: acc.violation(key + ("@large-offset" if any(o >= 1 << 31 for _, o, _ in entries) else "") + hc,
+                                         "%s (idx v%d written by %s): %s" % (fam, version, writer, msg), rpd)
+    want = sorted((n, o, (c if version >= 2 else None)) for n, o, c in entries)
+    try:
+        ix = P.load_pack_index(path, fmt)
+    except Exception as e:
+        vio("read:load_pack_index:raises-%s" % _exc_name(e), "%s: %s" % (_exc_site(e), str(e)[:120]))
+        return
+    cn = "PackIndex%d" % version
+    try:
+        if type(ix).__name__ != cn:
+            vio("read:load_pack_index:wrong-class", type(ix).__name__)
+        if len(ix) != len(want):
+            vio("read:%s.__len__:wrong" % cn, "%d, want %d" % (len(ix), len(want)))
+        got = [tuple(e) for e in ix.iterentries()]
+        if got != want:
+            vio("read:%s.iterentries:%s" % (cn, _entries_diff(got, want)), "got %s want %s" % (_fmt_entries(got), _fmt_entries(want)))
+        if list(ix) != [n.hex().encode() for n, _, _ in want]:
+            vio("read:%s.__iter__:names-differ" % cn, "")
+        for n, o, _ in want:
+            for key in (n, n.hex().encode()):
+                try:
+                    g = ix.object_offset(key)
+                except Exception as e:
+                    vio("read:%s.object_offset:raises-%s" % (cn, _exc_name(e)), "%s: %s: %s" % (n.hex()[:12], _exc_site(e), str(e)[:100]))
+                    continue
+                if g != o:
+                    vio("read:%s.object_offset:offset-wrong" % cn, "%s -> %#x, want %#x" % (n.hex()[:12], g, o))
+            try:
+                g = ix.object_sha1(o)
+                if g != n and [x for x in want if x[1] == o][0][0] != g:
+                    vio("read:%s.object_sha1:name-wrong" % cn, "offset %#x -> %r" % (o, g))
+            except Exception as e:
+                vio("read:%s.object_sha1:raises-%s" % (cn, _exc_name(e)), "offset %#x: %s" % (o, str(e)[:100]))
+        present = {n for n, _, _ in want}
+        hl = R.hash_len(hash_name)
+        misses = [bytes([fb]) + bytes([fill]) * (hl - 1) for fb in sorted(set(I_FIRST) | {0x02, 0x80}) for fill in (0x00, 0xFF)]
+        misses += [n[:-1] + bytes([n[-1] ^ 1]) for n in present]
+        for m in misses:
+            if m in present:
+                continue
+            try:
+                g = ix.object_offset(m)
+                vio("read:%s.object_offset:absent-name-found" % cn, "%s -> %#x" % (m.hex()[:12], g))
+            except KeyError:
+                pass
+            except Exception as e:
+                vio("read:%s.object_offset:absent-name-raises-%s" % (cn, _exc_name(e)), "%s: %s" % (m.hex()[:12], str(e)[:100]))
+        for fb in sorted(set(I_FIRST) | {0x02}):
+            try:
+                g = list(ix.iter_prefix(bytes([fb])))
+                w = [n for n, _, _ in want if n[0] == fb]
+                if g != w:
+                    vio("read:%s.iter_prefix:names-differ" % cn, "prefix %02x: got %d want %d" % (fb, len(g), len(w)))
+            except Exception as e:
+                vio("read:%s.iter_prefix:raises-%s" % (cn, _exc_name(e)), "prefix %02x: %s: %s" % (fb, _exc_site(e), str(e)[:100]))
+        for n, _, _ in want[:2]:
+            try:
+                g = list(ix.iter_prefix(n[:3]))
+                if g != [n]:
+                    vio("read:%s.iter_prefix:names-differ" % cn, "3-byte prefix of %s: %r" % (n.hex()[:12], g))
+            except Exception as e:
+                vio("read:%s.iter_prefix:raises-%s" % (cn, _exc_name(e)), "3-byte prefix: %s: %s" % (_exc_site(e), str(e)[:100]))
+        if ix.get_pack_checksum() != pack_checksum:
+            vio("read:%s.get_pack_checksum:wrong" % cn, "")
+        try:
+            ix.check()
+        except Exception as e:
+            vio("read:%s.check:raises-%s" % (cn, _exc_name(e)), str(e)[:100])
+        acc.count("idx_reads")
+    except Exception as e:
+        vio("read:%s:raises-%s" % (cn, _exc_name(e)), "%s: %s" % (_exc_site(e), str(e)[:120]))
+    finally:
+        ix.close()
+
+
+def case_idx(acc, name_idxs, offsets, version, hash_name, shared=None):
+    """Synthetic entries (name_idxs[i] at offsets[i]) -> dulwich writer -> reference parser, C git
+    show-index, dulwich reader; reference writer -> dulwich reader."""
+    P = _P()
+    rpd = rp(case_idx, list(name_idxs), list(offsets), version, hash_name)
+    nm = i_names(hash_name)
+    entries = sorted((nm[i], o, _crc_for(nm[i])) for i, o in zip(name_idxs, offsets))
+    hl = R.hash_len(hash_name)
+    pack_checksum = hashlib.sha256(b"pack").digest()[:hl]
+    fam = "I/%s@%s" % ([nm[i][0] for i in name_idxs], ["%#x" % o for o in offsets])
+    hc = _hcls(hash_name)
+    acc.count("I_cases")
+    d = fresh_dir("i")
+    try:
+        fits = (version != 1 or all(o <= 0xFFFFFFFF for o in offsets)) and _idx_legal(version, hash_name)
+        # ---- dulwich writes
+        path = os.path.join(d, "w.idx")
+        data = None
+        try:
+            with open(path, "wb") as f:
+                ret = P.write_pack_index(f, entries, pack_checksum, version=version)
+            with open(path, "rb") as f:
+                data = f.read()
+        except Exception as e:
+            acc.outcome("I:write-v%d:%s:refused-%s%s" % (version, hash_name, _exc_name(e), "" if fits else "(format cannot hold it)"))
+            if fits:
+                acc.violation("write:write_pack_index_v%d:raises-%s%s" % (version, _exc_name(e), hc),
+                              "%s: %s in %s: %s" % (fam, _exc_name(e), _exc_site(e), str(e)[:120]), rpd)
+        if data is not None and not fits:
+            acc.violation("write:write_pack_index_v%d:writes-what-the-format-cannot-hold%s" % (version, hc), fam, rpd)
+            data = None
+        if data is not None:
+            ok = True
+            try:
+                ii = R.parse_idx(data, hash_name)
+                problems = list(ii.problems)
+                if ii.version != version:
+                    problems.append("version-is-%d" % ii.version)
+                if not problems:
+                    got = [(n, o, (c if version >= 2 else _crc_for(n))) for n, o, c in ii.entries]
+                    if got != entries:
+                        problems.append(_entries_diff(got, entries))
+                    if ii.pack_checksum != pack_checksum:
+                        problems.append("pack-checksum-wrong")
+                    if ret != ii.idx_checksum:
+                        problems.append("returned-checksum-differs-from-trailer")
+            except R.FormatError as e:
+                problems = [e.code]
+            lc = "@large-offset" if any(o >= 1 << 31 for o in offsets) else ""
+            for pr in problems:
+                ok = False
+                acc.violation("write:write_pack_index_v%d:%s%s%s" % (version, pr, lc, hc), "%s: %d-byte index" % (fam, len(data)), rpd)
+            if ok:
+                if version >= 2 and ii.large_table:
+                    acc.outcome("I:write-v%d:64-bit-table-entries=%d" % (version, len(ii.large_table)))
+                ref = R.build_idx(version, entries, pack_checksum, hash_name)
+                acc.outcome("I:write-v%d:%s:%s" % (version, hash_name, "bytes-equal-reference-writer" if ref == data else "bytes-differ-from-reference-writer"))
+                if version <= 2 and _claim(shared, "X-" + hashlib.sha1(data).hexdigest()):
+                    p = git(["show-index", "--object-format=" + hash_name], input=data, check=False)
+                    acc.count("git_show_index")
+                    want = [(o, n.hex(), (c if version >= 2 else None)) for n, o, c in entries]
+                    if p.returncode != 0:
+                        acc.violation("git:show-index:rejects-dulwich-idx-v%d%s" % (version, hc), "%s: %s" % (fam, p.stderr[-200:]), rpd)
+                    elif R.parse_show_index(p.stdout) != want:
+                        raise HarnessError("ORACLE-DISAGREEMENT: git show-index and the reference parser read an idx differently: %r"
+                                           % (rpd,))
+                    else:
+                        acc.outcome("git:show-index:agrees-v%d" % version)
+                _idx_read_oracle(acc, fam, path, entries, pack_checksum, version, hash_name, rpd, "dulwich")
+        # ---- reference writer -> dulwich reader (incl. small offsets forced through the 64-bit table)
+        if fits:  # (a v3 index with SHA-256 names is written by nobody: not part of any round trip)
+            variants = [()]
+            if version >= 2 and any(o < 1 << 31 for o in offsets):
+                variants.append(tuple(o for o in offsets if o < 1 << 31))
+            for k, force in enumerate(variants):
+                ref = R.build_idx(version, entries, pack_checksum, hash_name, force_large=force)
+                rpath = os.path.join(d, "r%d.idx" % k)
+                with open(rpath, "wb") as f:
+                    f.write(ref)
+                _idx_read_oracle(acc, fam + ("/forced-64-bit" if force else ""), rpath, entries, pack_checksum, version, hash_name, rpd, "reference")
+    finally:
+        rmtree(d)
+
+
+def idx_cases(kmax):
+    n = len(I_FIRST)
+    for r in range(0, kmax + 1):
+        for names in itertools.combinations(range(n), r):
+            for offs in itertools.product(I_OFFSETS, repeat=r):
+                yield names, offs
+
+
+# --------------------------------------------------------------------------- R: reference-built packs
+
+
+def forests(n):
+    """Every parent assignment on n labelled nodes without cycles: tuple parent[i] in {None, j != i}."""
+    for par in itertools.product([None] + list(range(n)), repeat=n):
+        ok = True
+        for i in range(n):
+            if par[i] == i:
+                ok = False
+                break
+            seen = {i}
+            j = par[i]
+            while j is not None:
+                if j in seen:
+                    ok = False
+                    break
+                seen.add(j)
+                j = par[j]
+            if not ok:
+                break
+        if ok:
+            yield par
+
+
+def rpack_cases(n):
+    """(parents, pack order, kinds): kinds[i] in {None (full), 'ofs' (base earlier in the pack), 'ref'}."""
+    for par in forests(n):
+        for order in itertools.permutations(range(n)):
+            posn = {v: k for k, v in enumerate(order)}
+            choices = []
+            for i in range(n):
+                if par[i] is None:
+                    choices.append((None,))
+                elif posn[par[i]] < posn[i]:
+                    choices.append(("ofs", "ref"))
+                else:
+                    choices.append(("ref",))
+            for kinds in itertools.product(*choices):
+                yield par, order, kinds
+
+
+def _install(d, stem, packdata, idxdata):
+    base = os.path.join(d, stem)
+    if not os.path.exists(base + ".pack"):
+        with open(base + ".pack", "wb") as f:
+            f.write(packdata)
+    with open(base + ".idx", "wb") as f:
+        f.write(idxdata)
+    return base
+
+
+def case_rpack(acc, parents, order, kinds, hash_name, level, shared=None):
+    """Pack built by the reference writer from versions of one blob (pool E): object i is a delta
+    against parents[i] of kind kinds[i]; entries in `order`.  C git must accept it (else the
+    reference writer is wrong); dulwich reads it through reference-built idx v1/v2/v3."""
+    rpd = rp(case_rpack, list(parents), list(order), list(kinds), hash_name, level)
+    pl = pool("E", hash_name)
+    n = len(parents)
+    objs = pl[:n]
+    names = _names(objs, hash_name)
+    w = R.PackWriter(hash_name, level=level)
+    off = {}
+    for i in order:
+        t, d = objs[i]
+        if kinds[i] is None:
+            off[i] = w.add_full(t, d)
+        else:
+            delta = R.make_delta(objs[parents[i]][1], d)
+            if kinds[i] == "ofs":
+                off[i] = w.add_ofs(off[parents[i]], delta)
+            else:
+                off[i] = w.add_ref(names[parents[i]], delta)
+    data = w.finish()
+    fam = "R/par=%r order=%r kinds=%r" % (tuple(parents), tuple(order), tuple(kinds))
+    acc.count("R_cases")
+    d = fresh_dir("r")
+    try:
+        pinfo, res = oracle_pack(acc, "R", data, [objs[i] for i in order], hash_name, rpd, writer="reference")
+        base0 = _install(d, "p", data, b"")
+        if _claim(shared, "P-" + hash_name + "-" + pinfo.trailer.hex()):
+            st = _gitstate(hash_name)
+            p = git(["index-pack", "--strict", "-o", os.path.join(d, "g.idx"), base0 + ".pack"], cwd=st["full"], check=False)
+            acc.count("git_index_pack")
+            if p.returncode != 0:
+                raise HarnessError("C git rejects a reference-built pack (%s): %s" % (fam, p.stderr[-300:]))
+            with open(os.path.join(d, "g.idx"), "rb") as f:
+                gi = R.parse_idx(f.read(), hash_name)
+            if sorted(gi.entries) != _ref_entries(pinfo, res):
+                raise HarnessError("ORACLE-DISAGREEMENT: git index-pack vs reference parser on a reference-built pack (%s)" % fam)
+            acc.outcome("git:index-pack--strict:accepts-reference-pack")
+        ents = _ref_entries(pinfo, res)
+        first = True
+        for version in (2, 1, 3):
+            if not _idx_legal(version, hash_name):
+                continue
+            base = os.path.join(d, "v%d" % version)
+            os.link(base0 + ".pack", base + ".pack")
+            with open(base + ".idx", "wb") as f:
+                f.write(R.build_idx(version, ents, pinfo.trailer, hash_name))
+            oracle_read(acc, fam, base, res, ents, version, hash_name, rpd, orders="all" if first and n <= 3 else "few",
+                        singles=first)
+            first = False
+        acc.outcome("R:%s:depth=%d:kinds=%s" % (hash_name, max(r.depth for r in res) if res else 0,
+                                                "+".join(sorted({r.kind for r in res})) or "empty"))
+    finally:
+        rmtree(d)
+
+
+# --------------------------------------------------------------------------- G: C git writes, dulwich reads
+
+
+def _git_pack(hash_name, names, args, not_revs=()):
+    """`git pack-objects --stdout` over the given object names (with --revs in args: revisions,
+    `not_revs` excluded) -> pack bytes."""
+    st = _gitstate(hash_name)
+    inp = b"".join(n.hex().encode() + b"\n" for n in names) + b"".join(b"^" + n.hex().encode() + b"\n" for n in not_revs)
+    return git(["pack-objects", "-q", "--stdout"] + list(args), cwd=st["full"], input=inp).stdout
+
+
+def _git_index(hash_name, d, packpath, stem, ivarg):
+    st = _gitstate(hash_name)
+    out = os.path.join(d, stem + ".idx")
+    git(["index-pack", "--strict"] + ([ivarg] if ivarg else []) + ["-o", out, packpath], cwd=st["full"])
+    rev = os.path.join(d, stem + ".rev")
+    if os.path.exists(rev):
+        os.unlink(rev)
+    with open(out, "rb") as f:
+        return f.read()
+
+
+G_IDX = (("v2", None, 2), ("v1", "--index-version=1", 1), ("v2-64", "--index-version=2,0", 2))
+
+
+def _read_git_pack(acc, fam, d, data, exp, hash_name, rpd, orders, singles=False, store_too=True):
+    """Common part of the G cases: `data` is a self-contained pack written by C git."""
+    P = _P()
+    fmt = _fmt(hash_name)
+    pinfo, res = oracle_pack(acc, fam.split("/")[0], data, exp, hash_name, rpd, writer="C git", ordered=False)
+    ents = _ref_entries(pinfo, res)
+    packpath = os.path.join(d, "g.pack")
+    with open(packpath, "wb") as f:
+        f.write(data)
+    first = True
+    for label, ivarg, version in G_IDX:
+        if version == 1 and hash_name != "sha1":
+            continue
+        idxdata = _git_index(hash_name, d, packpath, "g-" + label, ivarg)
+        acc.count("git_index_pack")
+        ii = oracle_idx(acc, fam, pinfo, res, idxdata, version, hash_name, rpd, "git", writer="C git")
+        if label == "v2-64" and pinfo.count > 1 and not ii.large_table:
+            raise HarnessError("git --index-version=2,0 did not produce 64-bit entries")
+        base = os.path.join(d, "g-" + label)
+        os.link(packpath, base + ".pack")
+        oracle_read(acc, fam + "/idx=" + label, base, res, ents, version, hash_name, rpd, orders=orders if first else "few",
+                    singles=singles and first)
+        if first:
+            # dulwich re-indexes git's pack: same entries; byte equality with git's idx recorded only
+            try:
+                pd = P.PackData(packpath, object_format=fmt)
+                try:
+                    pd.create_index(os.path.join(d, "re.idx"), version=2)
+                finally:
+                    pd.close()
+                with open(os.path.join(d, "re.idx"), "rb") as f:
+                    mine = f.read()
+                acc.outcome("G:reindex:%s" % ("bytes-equal-git-idx" if mine == idxdata else "bytes-differ-from-git-idx"))
+                ri = oracle_idx(acc, fam + "/reindex", pinfo, res, mine, 2, hash_name, rpd, "PackData.create_index")
+            except Exception as e:
+                acc.violation("read:PackData.create_index:raises-%s%s" % (_exc_name(e), _hcls(hash_name)),
+                              "%s: %s in %s: %s" % (fam, _exc_name(e), _exc_site(e), str(e)[:120]), rpd)
+        first = False
+    if store_too and res:
+        from dulwich.object_store import DiskObjectStore
+
+        sd = os.path.join(d, "objects")
+        os.makedirs(os.path.join(sd, "pack"))
+        stem = os.path.join(sd, "pack", "pack-" + pinfo.trailer.hex()[:40])
+        os.link(packpath, stem + ".pack")
+        os.link(os.path.join(d, "g-v2.idx"), stem + ".idx")
+        store = DiskObjectStore(sd, object_format=fmt)
+        try:
+            for r in res:
+                h = r.name.hex().encode()
+                try:
+                    if store.get_raw(h) != (r.type, r.data) or h not in store:
+                        acc.violation("read:DiskObjectStore.get_raw:object-differs%s" % _entry_class(r, hash_name), "%s %s" % (fam, h[:12]), rpd)
+                except Exception as e:
+                    acc.violation("read:DiskObjectStore.get_raw:raises-%s%s" % (_exc_name(e), _entry_class(r, hash_name)),
+                                  "%s %s: %s: %s" % (fam, h[:12], _exc_site(e), str(e)[:120]), rpd)
+            if sorted(store) != sorted(r.name.hex().encode() for r in res):
+                acc.violation("read:DiskObjectStore.__iter__:ids-differ%s" % _hcls(hash_name), fam, rpd)
+        finally:
+            store.close()
+    return pinfo, res
+
+
+def case_gsub(acc, pool_name, subset, hash_name, depth, dbo, shared=None):
+    """git pack-objects over a subset of a pool."""
+    rpd = rp(case_gsub, pool_name, list(subset), hash_name, depth, dbo)
+    exp = _objs(pool_name, subset, hash_name)
+    args = ["--depth=%d" % depth, "--window=10"] + (["--delta-base-offset"] if dbo else [])
+    fam = "G.sub/%s%r/depth=%d/dbo=%d" % (pool_name, tuple(subset), depth, dbo)
+    acc.count("G.sub_cases")
+    d = fresh_dir("g")
+    try:
+        data = _git_pack(hash_name, _names(exp, hash_name), args)
+        _read_git_pack(acc, fam, d, data, exp, hash_name, rpd, orders="all")
+        acc.outcome("G.sub:%s:evaluated" % hash_name)
+    finally:
+        rmtree(d)
+
+
+def case_gchain(acc, nver, hash_name, depth, dbo, shared=None):
+    """Successive edits of one blob (pool V) packed by git with the given --depth."""
+    rpd = rp(case_gchain, nver, hash_name, depth, dbo)
+    exp = pool("V", hash_name)[:nver]
+    args = ["--depth=%d" % depth, "--window=%d" % max(nver, 10)] + (["--delta-base-offset"] if dbo else [])
+    fam = "G.chain/%d versions/depth=%d/dbo=%d" % (nver, depth, dbo)
+    acc.count("G.chain_cases")
+    d = fresh_dir("g")
+    try:
+        data = _git_pack(hash_name, _names(exp, hash_name), args)
+        pinfo = R.parse_pack(data, hash_name)
+        res = R.resolve_pack(pinfo)
+        by_pack = [r.name for r in res]
+        by_depth = [r.name for r in sorted(res, key=lambda r: (-r.depth, r.offset))]
+        orders = [tuple(sorted(by_pack)), tuple(sorted(by_pack, reverse=True)), tuple(by_pack), tuple(reversed(by_pack)), tuple(by_depth)]
+        _read_git_pack(acc, fam, d, data, exp, hash_name, rpd, orders=orders, singles=True)
+        acc.outcome("G.chain:%s:depth-limit=%d:max-depth-reached=%d" % (hash_name, depth, max(r.depth for r in res)))
+    finally:
+        rmtree(d)
+
+
+def case_gthin(acc, want, have, hash_name, dbo, shared=None):
+    """git pack-objects --thin --revs <commit want> ^<commit have> over the linear history of pool T:
+    the pack holds (blob, tree, commit) of versions have+1..want, possibly as deltas against the
+    objects of version `have`, which are not in the pack (have = -1: nothing excluded).  dulwich
+    completes it with DiskObjectStore.add_thin_pack in a store holding versions 0..have."""
+    from io import BytesIO
+
+    from dulwich.object_store import DiskObjectStore
+
+    fmt = _fmt(hash_name)
+    rpd = rp(case_gthin, want, have, hash_name, dbo)
+    pl = pool("T", hash_name)
+    trip = lambda k: [pl[k], pl[6 + k], pl[12 + k]]
+    wobjs = [o for k in range(have + 1, want + 1) for o in trip(k)]
+    hobjs = [o for k in range(0, have + 1) for o in trip(k)]
+    fam = "G.thin/want=%d have=%d dbo=%d" % (want, have, dbo)
+    acc.count("G.thin_cases")
+    d = fresh_dir("g")
+    try:
+        data = _git_pack(hash_name, _names([pl[12 + want]], hash_name),
+                         ["--revs", "--thin", "--depth=50", "--window=10"] + (["--delta-base-offset"] if dbo else []),
+                         not_revs=_names([pl[12 + have]], hash_name) if have >= 0 else ())
+        ext = {n: o for n, o in zip(_names(hobjs, hash_name), hobjs)}
+        pinfo = R.parse_pack(data, hash_name)
+        res = R.resolve_pack(pinfo, ext)
+        if sorted((r.type, r.data) for r in res) != sorted(wobjs):
+            raise HarnessError("thin pack from git does not hold the wanted objects")
+        needed = sorted({e.base_name for e in pinfo.entries if e.type == R.REF_DELTA and e.base_name in ext})
+        acc.outcome("G.thin:%s:external-bases=%d" % (hash_name, len(needed)))
+        sd = os.path.join(d, "objects")
+        os.makedirs(os.path.join(sd, "pack"))
+        store = DiskObjectStore(sd, object_format=fmt)
+        try:
+            for t, dt in hobjs:
+                store.add_object(_shafile(t, dt, hash_name))
+            f = BytesIO(data)
+            try:
+                pk = store.add_thin_pack(f.read, None)
+            except Exception as e:
+                acc.violation("read:DiskObjectStore.add_thin_pack:raises-%s%s" % (_exc_name(e), _hcls(hash_name)),
+                              "%s: %s in %s: %s" % (fam, _exc_name(e), _exc_site(e), str(e)[:160]), rpd)
+                return
+            base = pk._basename
+            for (t, dt), n in zip(wobjs + hobjs, _names(wobjs + hobjs, hash_name)):
+                try:
+                    if store.get_raw(n.hex().encode()) != (t, dt):
+                        acc.violation("read:DiskObjectStore.get_raw:object-differs-after-add_thin_pack%s" % _hcls(hash_name), "%s %s" % (fam, n.hex()[:12]), rpd)
+                except Exception as e:
+                    acc.violation("read:DiskObjectStore.get_raw:raises-%s-after-add_thin_pack%s" % (_exc_name(e), _hcls(hash_name)),
+                                  "%s %s: %s" % (fam, n.hex()[:12], str(e)[:120]), rpd)
+        finally:
+            store.close()
+        # the completed pack is a pack dulwich wrote (extend_pack): self-contained, consistent, acceptable to git
+        with open(base + ".pack", "rb") as f:
+            cdata = f.read()
+        with open(base + ".idx", "rb") as f:
+            cidx = f.read()
+        cexp = wobjs + [ext[n] for n in needed]
+        pr = oracle_pack(acc, "G.thin-completed", cdata, cexp, hash_name, rpd, ordered=False)
+        if pr is None:
+            return
+        cinfo, cres = pr
+        oracle_git_pack(acc, fam, base + ".pack", cinfo, cres, hash_name, rpd, shared)
+        ii = oracle_idx(acc, fam, cinfo, cres, cidx, 2, hash_name, rpd, "DiskObjectStore._complete_pack")
+        if ii is not None:
+            oracle_read(acc, fam, base, cres, _ref_entries(cinfo, cres), 2, hash_name, rpd, orders="all")
+            oracle_git_pair(acc, fam, base, cinfo, cres, ii, hash_name, rpd, shared)
+    finally:
+        rmtree(d)
+
+
+def subsets(n, k):
+    for r in range(0, k + 1):
+        yield from itertools.combinations(range(n), r)
+
+
 # --------------------------------------------------------------------------- task plumbing
+
+_CASES = {}
 
 
 def work(task):
     import signal
 
     signal.signal(signal.SIGTERM, signal.SIG_DFL)
-    kind, items, params = task
+    kind, items, shared = task
     acc = Acc()
-    if kind == "wseq":
-        shared = params
-        for pool_name, idxs, hash_name, mode, opt in items:
-            case_wseq(acc, pool_name, idxs, hash_name, mode, opt, shared)
-    else:
-        raise AssertionError(kind)
+    fn = globals()["case_" + kind]
+    for args in items:
+        fn(acc, *args, shared=shared)
     return acc
 
 
@@ -806,38 +1586,156 @@ def _bind_rust():
     return paths
 
 
-def run(ctx):
+HASHES = ("sha1", "sha256")
 
+REQUIRED_CLASSES = [
+    # (what must have been observed, why)
+    ("shape:entry:ofs-distance=127", "OFS distance 1-byte maximum"),
+    ("shape:entry:ofs-distance=128", "OFS distance 2-byte minimum"),
+    ("shape:entry:ofs-distance=16511", "OFS distance 2-byte maximum"),
+    ("shape:entry:ofs-distance=16512", "OFS distance 3-byte minimum"),
+    ("shape:entry:ofs-distance=2113663", "OFS distance 3-byte maximum"),
+    ("shape:entry:ofs-distance=2113664", "OFS distance 4-byte minimum"),
+    ("W.slice:deflate-length-minus-k*64KiB=-1", "deflate stream one byte short of the read slice"),
+    ("W.slice:deflate-length-minus-k*64KiB=+0", "deflate stream ends exactly at the read slice"),
+    ("W.slice:deflate-length-minus-k*64KiB=+1", "deflate stream one byte over the read slice"),
+    ("shape:entry:type=3:header-bytes=1", "size < 16"),
+    ("shape:entry:type=3:header-bytes=2", "16 <= size < 2048"),
+    ("shape:entry:type=3:header-bytes=3", "2048 <= size < 2^18"),
+    ("shape:entry:type=3:header-bytes=4", "size >= 2^18"),
+    ("shape:delta:copy-size=0xffff", "copy op of 65535 bytes"),
+    ("shape:delta:copy-size=0x10000", "copy op of 65536 bytes"),
+    ("shape:W.seq:kinds=full+ofs", "dulwich wrote OFS deltas"),
+    ("shape:W.seq:kinds=full+ref", "dulwich wrote REF deltas (delta before its base)"),
+    ("shape:W.reuse:max-depth=2", "dulwich reused a delta of a delta"),
+    ("shape:G.chain:max-depth=49", "git chain of depth ~50"),
+    ("shape:idx-v2:64-bit-table", "git idx with 64-bit entries read by dulwich"),
+    ("I:write-v2:64-bit-table-entries=2", "dulwich idx with two 64-bit entries"),
+    ("G.thin:sha1:external-bases=1", "git thin pack with an external base"),
+    ("W.reuse:sha1:git-ref:thin-pack-external-bases=2", "dulwich thin pack from reused deltas"),
+    ("git:index-pack--strict:accepted", "C git judged dulwich packs"),
+    ("git:verify-pack:accepted-idx-v1", "C git read dulwich idx v1"),
+    ("git:verify-pack:accepted-idx-v2", "C git read dulwich idx v2"),
+    ("git:cat-file:identical", "C git served contents through dulwich's idx"),
+    ("git:show-index:agrees-v2", "C git listed dulwich's synthetic idx"),
+]
+
+
+def run(ctx):
     _bind_rust()
     q = ctx.quick
     J = ctx.jobs * 6
     shared = fresh_dir("claims")
     tasks = []
-    # W.seq
-    items = []
+
+    def add(kind, items, parts=J):
+        items = ctx.order(items)
+        for part in split(items, parts):
+            tasks.append((kind, part, shared))
+        return len(items)
+
+    counts = {}
+    # ---- W.seq
     kmax = {"A": 3 if q else 4, "B": 2 if q else 3, "C": 2 if q else 3}
+    opts = wseq_options(q)
+    items = []
     for pn in ("A", "B", "C"):
         n = len(pool(pn, "sha1"))
         for idxs in ordered_selections(n, kmax[pn]):
-            for hash_name in ("sha1", "sha256"):
-                for mode, opt in wseq_options(q):
+            for hash_name in HASHES:
+                for mode, opt in opts:
                     items.append((pn, idxs, hash_name, mode, opt))
-    for part in split(ctx.order(items), J):
-        tasks.append(("wseq", part, shared))
+    counts["W.seq"] = add("wseq", items, J * 4)
+    # ---- W.ofs / W.slice
+    counts["W.ofs"] = add("wofs", [(n,) for n in WOFS_FILLERS], 30)
+    counts["W.slice"] = add("wslice", [(n, 0, lay) for n in WSLICE_SIZES for lay in ("alone", "then-small", "small-then")], 34)
+    # ---- W.reuse
+    rk = 2 if q else 3
+    items = []
+    for kind in ("git-ref", "git-ofs", "dulwich"):
+        for hash_name in HASHES:
+            for idxs in ordered_selections(6, rk):
+                for reuse, deltify, window, thin in itertools.product((False, True), (False, True), (None, 1), (False, True)):
+                    items.append((kind, idxs, hash_name, reuse, deltify, window, thin))
+    counts["W.reuse"] = add("wreuse", items)
+    # ---- I
+    ik = 2 if q else 3
+    items = [(names, offs, v, h) for names, offs in idx_cases(ik) for v in (1, 2, 3) for h in HASHES]
+    counts["I"] = add("idx", items)
+    # ---- R
+    rn = 3 if q else 4
+    items = [(par, order, kinds, h, 6) for n in range(0, rn + 1) for par, order, kinds in rpack_cases(n) for h in HASHES]
+    counts["R"] = add("rpack", items)
+    # ---- G
+    gk = {"A": 3 if q else 4, "B": 2 if q else 3, "C": 2 if q else 3}
+    items = []
+    for pn in ("A", "B", "C"):
+        n = len(pool(pn, "sha1"))
+        for sub in subsets(n, gk[pn]):
+            for h in HASHES:
+                for depth in (1, 50):
+                    for dbo in (0, 1):
+                        items.append((pn, sub, h, depth, dbo))
+    counts["G.sub"] = add("gsub", items)
+    nvers = (64,) if q else (8, 33, 64)
+    items = [(nv, h, depth, dbo) for nv in nvers for h in HASHES for depth in (1, 10, 50) for dbo in (0, 1)]
+    counts["G.chain"] = add("gchain", items, len(items))
+    items = [(w, hv, h, dbo) for h in HASHES for w in range(6) for hv in range(-1, w) for dbo in (0, 1)]
+    counts["G.thin"] = add("gthin", items, 28)
 
+    # long tasks first within the seed-permuted order keeps the tail short
     tasks = ctx.order(tasks)
+    tasks.sort(key=lambda t: {"gchain": 0, "wofs": 1, "wslice": 2}.get(t[0], 3))
     pmap_acc(work, tasks, ctx.acc, jobs=ctx.jobs)
 
-    n = ctx.acc.n
+    acc = ctx.acc
+    missing = [(c, why) for c, why in REQUIRED_CLASSES if c not in acc.classes]
+    if missing:
+        raise HarnessError("vacuity guard: classes never observed: %r" % (missing,))
+    n = acc.n
     total = sum(v for k, v in n.items() if k.endswith("_cases"))
+    for fam, cnt in counts.items():
+        if n.get(fam + "_cases") != cnt:
+            raise HarnessError("family %s: %r cases evaluated, %d enumerated" % (fam, n.get(fam + "_cases"), cnt))
+    acc.notes = {k: v for k, v in acc.notes.items() if not k.startswith("W.ofs:distance")}
     ctx.level = "exploration"
     ctx.coverage.update(
         evaluations=total,
-        distinct_nontrivial=len([c for c in ctx.acc.classes if not c.endswith("round-trip-evaluated")]),
-        rule="(filled below)",
+        distinct_nontrivial=len([c for c in acc.classes if not c.endswith("evaluated")]),
+        rule=(
+            "E4 bounded-exhaustive.  W.seq: every ordered selection of <=k objects from pools A (10 objects: every type, empty "
+            "blob, 15/16 bytes, same bytes as blob and commit, delta pairs; k=%d), B (blobs of 15/16/2047/2048/2^18-1/2^18/2^18+1 "
+            "bytes; k=%d), C (65535/65536/65537/131073-byte common runs; k=%d) x {sha1, sha256} x %d write configurations "
+            "(write_pack deltify x window; write_pack_objects deltify x level {-1,0,1,9} with idx v1/v2/v3 from the returned "
+            "entries and from PackData.create_index; deltify_pack_objects(window) + write_pack_data in the selected order; "
+            "DiskObjectStore.add_objects level x index version).  W.ofs: %d filler sizes sweeping the OFS distance across "
+            "127/128, 16511/16512, 2113663/2113664.  W.slice: %d blob sizes x 3 layouts sweeping the deflate length across "
+            "65536 and 131072.  W.reuse: 3 delta-packed source stores x every ordered selection of <=%d of 6 versions x "
+            "reuse_deltas x deltify x window {None,1} x thin x hashes.  I: every set of <=%d of 7 names (first bytes "
+            "00,00,01,7f,fe,ff,ff) x every assignment of offsets from {12,2^31-1,2^31,2^32-1,2^32,2^40} x idx v1/v2/v3 x hashes.  "
+            "R: every delta forest on <=%d versions x every pack order x OFS/REF choice, built by the reference writer.  "
+            "G: git pack-objects over every subset (A<=%d, B<=%d, C<=%d) x depth {1,50} x delta-base-offset x idx {v2, v1, v2 "
+            "with forced 64-bit entries}; %r successive edits x depth {1,10,50}; --thin over every (want, have) of a 6-commit "
+            "history.  Every distinct (pack, idx) dulwich wrote goes to git index-pack --strict / verify-pack -v / cat-file "
+            "--batch (de-duplicated by checksum).  distinct_nontrivial = observed outcome/shape classes."
+            % (kmax["A"], kmax["B"], kmax["C"], len(opts), len(WOFS_FILLERS), len(WSLICE_SIZES), rk, ik, rn, gk["A"], gk["B"], gk["C"], nvers)
+        ),
         exhaustive=True,
-        bounds={"W.seq": kmax},
+        bounds={"W.seq.k": kmax, "W.seq.configs": len(opts), "W.reuse.k": rk, "I.k": ik, "R.n": rn, "G.sub.k": gk, "G.chain.versions": list(nvers)},
+        family_cases=counts,
+        git_calls={k: v for k, v in n.items() if k.startswith("git_")},
+        distinct_packs_judged_by_git=n.get("git_index_pack", 0),
+        dulwich_reads={"pack_idx_pairs": n.get("read_pairs", 0), "access_orders": n.get("read_access_orders", 0), "idx_files": n.get("idx_reads", 0)},
     )
+    ctx.assumptions += [
+        "reference parser/writer engines/refmodels/packfile.py written from gitformat-pack(5); every pack it builds and every "
+        "reading it makes of a dulwich-written pack is cross-checked against C git 2.39.5 (disagreement = HARNESS-ERROR)",
+        "idx v3 is dulwich's own format (git 2.39.5 has none): round trip and internal consistency only, no git oracle",
+        "refusals that follow from the format are not violations: idx v1 with 32-byte names or offsets >= 2^32, dulwich's v3 "
+        "writer declaring SHA-256 not implemented",
+        "dulwich.pack bound to the Rust extension rebuilt from the working tree (apply_delta, create_delta, bisect_find_sha)",
+        "which of several identical packs is sent to git depends on worker timing; the set of distinct packs (and every count) does not",
+    ]
 
 
 def replay(ctx, obj):
